@@ -23,6 +23,11 @@ type Env struct {
 	pkg    *types.Package
 	// isParamScope marks the environment that binds the function's parameters
 	isParamScope bool
+	// alias: recorded (contract) name -> current source name of a renamed parameter / local
+	alias map[string][]string
+	// localFirst: source names of the current frame shadow the parameter bindings
+	// (frames of helpers extracted from the function under contract)
+	localFirst bool
 }
 
 func (s *Sym) newEnv(pkg *types.Package) *Env {
@@ -30,11 +35,32 @@ func (s *Sym) newEnv(pkg *types.Package) *Env {
 }
 
 func (e *Env) child() *Env {
-	return &Env{s: e.s, vars: map[string]TV{}, parent: e, local: e.local, mut: e.mut, st: e.st, old: e.old, pkg: e.pkg}
+	return &Env{s: e.s, vars: map[string]TV{}, parent: e, local: e.local, mut: e.mut, st: e.st, old: e.old, pkg: e.pkg, alias: e.alias, localFirst: e.localFirst}
 }
 
 func (e *Env) lookup(name string) (TV, bool) {
-	if e.local != nil && e.mut[name] {
+	if as, ok := e.alias[name]; ok {
+		// not when a quantifier / let of the contract binds the name
+		bound := false
+		for x := e; x != nil && x.parent != nil; x = x.parent {
+			if _, ok := x.vars[name]; ok {
+				bound = true
+			}
+		}
+		if !bound {
+			for i := len(as) - 1; i >= 0; i-- {
+				if v, ok := e.lookup1(as[i]); ok {
+					return v, true
+				}
+			}
+			return TV{}, false
+		}
+	}
+	return e.lookup1(name)
+}
+
+func (e *Env) lookup1(name string) (TV, bool) {
+	if e.local != nil && (e.mut[name] || e.localFirst) {
 		shadowed := false
 		for x := e; x != nil; x = x.parent {
 			if _, ok := x.vars[name]; ok && x.parent != nil && !x.isParamScope {
@@ -977,6 +1003,8 @@ func (s *Sym) applySpec(env *Env, sf *SpecFunc, args []TV) TV {
 		// macros see only their parameters (hygiene) plus globals
 		c.parent = nil
 		c.local = nil
+		c.alias = nil
+		c.localFirst = false
 		for i, p := range sf.Params {
 			c.vars[p.Name] = args[i]
 		}
